@@ -4,6 +4,7 @@ import (
 	"fmt"
 	"math"
 	"reflect"
+	"strings"
 	"time"
 
 	cache "github.com/fufuok/cache"
@@ -188,6 +189,77 @@ func c01ValueKinds() ([]Finding, int) {
 							Replay: map[string]interface{}{"engine": "C01values"}})
 					}
 				}
+			}
+		}
+	}
+	// key shapes outside the alphabets of the sequence search: the empty key, long keys with a long common
+	// prefix, a 1000-byte key - each holds its own value, whichever of them are deleted or expire
+	long := strings.Repeat("0123456789", 4)
+	keys := []string{"", "k", long + "1", long + "2", "1" + long, strings.Repeat("z", 1000), strings.Repeat("z", 1001)}
+	for twin := 0; twin < 2; twin++ {
+		n++
+		problem := func() (p string) {
+			defer func() {
+				if r := recover(); r != nil {
+					p = fmt.Sprintf("panic: %v", r)
+				}
+			}()
+			vtime.VEnable(epochNs)
+			installCacheLayout(nil)
+			var c anyCache
+			if twin == 0 {
+				c = cache.New(cache.WithCleanupInterval(0))
+			} else {
+				c = cache.NewOf[string, interface{}](cache.WithCleanupIntervalOf[string, interface{}](0))
+			}
+			for i, k := range keys {
+				d := time.Duration(0)
+				if i%2 == 1 {
+					d = 5
+				}
+				c.Set(k, i, d)
+			}
+			check := func(stage string, gone map[int]bool) string {
+				for i, k := range keys {
+					v, ok := c.Get(k)
+					if gone[i] != !ok || (ok && v != i) {
+						return fmt.Sprintf("%s: Get(key #%d, %d bytes) = (%v,%v)", stage, i, len(k), v, ok)
+					}
+				}
+				it := c.Items()
+				if len(it) != len(keys)-len(gone) {
+					return fmt.Sprintf("%s: Items has %d entries, want %d", stage, len(it), len(keys)-len(gone))
+				}
+				for i, k := range keys {
+					if v, ok := it[k]; ok == gone[i] || (ok && v != i) {
+						return fmt.Sprintf("%s: Items[key #%d] = (%v,%v)", stage, i, v, ok)
+					}
+				}
+				return ""
+			}
+			if p := check("after storing", map[int]bool{}); p != "" {
+				return p
+			}
+			c.Delete("")
+			c.Delete(long + "2")
+			if p := check("after deleting two keys", map[int]bool{0: true, 3: true}); p != "" {
+				return p
+			}
+			vtime.VAdvance(6)
+			if p := check("after the odd keys expired", map[int]bool{0: true, 1: true, 3: true, 5: true}); p != "" {
+				return p
+			}
+			c.DeleteExpired()
+			if c.Count() != 3 {
+				return fmt.Sprintf("Count after the cleanup pass = %d, want 3", c.Count())
+			}
+			return ""
+		}()
+		if problem != "" {
+			sig := "key shapes (empty, long common prefix, 1000 bytes): " + strings.SplitN(problem, ":", 2)[0]
+			if !seen[sig] {
+				seen[sig] = true
+				out = append(out, Finding{Property: "C01", Signature: sig, Detail: twinNames[twin] + ": " + problem, Replay: map[string]interface{}{"engine": "C01values"}})
 			}
 		}
 	}
